@@ -169,18 +169,24 @@ Fixpoint r_down (G:list srev) (n:nat) (pos:dpos) : option dpos :=
 Definition xids (l:list str) : list elem := map EId l.
 Definition xopt (o:option str) : list elem := match o with Some x => [EId x] | None => [ENoneV] end.
 
+(* The lookups get_revisions / get_revision take IDENTIFIERS, not upgrade/downgrade targets: a name is a name whatever
+   characters it consists of (an all-digit id such as 0, 0000 or 12 is an id: a positive integer or zero never means
+   "relative"); the relative spellings name+N, name-N, +N, -0, label@name-N ... are not identifiers of any revision and
+   must be refused.  The one documented exception is a NEGATIVE integer, alone or behind label@, given to the plural
+   lookup ("branch@-n -> walk down from heads", used by history ranges): the documentation does not fix its result. *)
 Definition ref_revs (G:list srev) (i:ident) : expect :=
   match i_rel i, i_sym i with
   | None, Some s => match r_abs G (i_lbl i) s with
                     | Some l => match s with RHeads => XSet (xids l) | _ => XOK None (xids l) end
                     | None => XFail
                     end
-  | _, _ => XLoose
+  | Some z, None => if (z <? 0)%Z then XLoose else XFail
+  | _, _ => XFail
   end.
 Definition ref_rev (G:list srev) (i:ident) : expect :=
   match i_rel i, i_sym i with
   | None, Some s => match r_one G (i_lbl i) s with Some o => XOK None (xopt o) | None => XFail end
-  | _, _ => XLoose
+  | _, _ => XFail
   end.
 Definition ref_num (G:list srev) (i:ident) : expect :=
   match i_rel i, i_sym i with
@@ -595,6 +601,6 @@ Definition qclassb (G:list srev) (cur:list str) (q:str) : bool :=
 Definition inclass_C16 (i:c16_in) : bool :=
   wfGb (i_revs i) && rankedb (i_revs i) && load_ok (i_revs i) &&
   (match load_in i with Ok _ => true | Err _ => false end) &&
-  forallb nonempty (all_labels (i_revs i)) &&
+  forallb (fun l => nonempty l && all_word l) (all_labels (i_revs i)) &&
   forallb (fun c => mems c (ids (i_revs i)) && all_word c) (i_cur i) &&
   forallb (qclassb (i_revs i) (i_cur i)) (i_queries i).
